@@ -706,7 +706,10 @@ func (s *scenario) loopAlphabet() []event {
 			out = append(out, event{Op: "stress", T: t, K: k})
 		}
 	}
-	out = append(out, event{Op: "advtick"}, event{Op: "eject"})
+	out = append(out, event{Op: "advtick"})
+	if s.eject {
+		out = append(out, event{Op: "eject"})
+	}
 	for _, o := range s.opts {
 		out = append(out, event{Op: "reload", Opt: o})
 	}
@@ -766,7 +769,8 @@ func (s *scenario) runLoop(h []event) []string {
 			c := cfg
 			f.ReloadLoop(c.apply)
 		}
-		f.QuiesceAll()
+		// every loop-mode operation above returns only after the worker has finished it (its own barrier); the sender
+		// goroutine is awaited here so that, as in the twin, nothing decided stays unsent across the next event
 		f.SenderIdle()
 	}
 	return decorAll(f)
@@ -895,8 +899,8 @@ func main() {
 	nloop := 0
 	if os.Getenv("VERIF_SCENARIO") == "" {
 		for _, ls := range []*scenario{
-			{name: "loop/off", init: off, ids: ids[:1], kinds: []fx.Kind{fx.Root, fx.Child, fx.SpanEvent}, stress: []fx.Kind{fx.Root}, opts: []string{"host", "attrs"}, sampler: rulesByRoot},
-			{name: "loop/on", init: on, ids: ids[:1], kinds: []fx.Kind{fx.Root, fx.Link}, stress: []fx.Kind{fx.Root}, opts: []string{"host", "counts", "reason"}, sampler: rulesByRoot},
+			{name: "loop/off", init: off, ids: ids[:1], kinds: ev.Pick(r, []fx.Kind{fx.Root, fx.Child}, []fx.Kind{fx.Root, fx.Child, fx.SpanEvent}), stress: []fx.Kind{fx.Root}, opts: []string{"host", "attrs"}, sampler: rulesByRoot, eject: true},
+			{name: "loop/on", init: on, ids: ids[:1], kinds: []fx.Kind{fx.Root, fx.Link}, stress: []fx.Kind{fx.Root}, opts: []string{"host", "counts", "reason"}, sampler: rulesByRoot, eject: r.Thorough()},
 		} {
 			d := q(3, 4)
 			t := time.Now()
